@@ -80,6 +80,10 @@ package tbtc
 //@     requires approvePeriodStartBlock > approvePrecedencePeriodStartBlock && approvePeriodStartBlock <= 4611686018427387904
 //@     modifies ghost.now, ghost.ctxDone, alloc
 //@     assert call:DistributedKeyGenerationChain.ApproveDKGResult : ghost.now >= ite(memberIndex == result.SubmitterMemberIndex, approvePrecedencePeriodStartBlock, approvePeriodStartBlock + (memberIndex - 1) * dkgResultApprovalDelayStepBlocks)
+//@   lit 2
+//@     binds ghost.ctxCancelled = false
+//@     opt noframe 1
+//@     ensures [every-approved-event-cancels-the-approving-member] ghost.ctxCancelled
 
 // ---------------------------------------------------------------------------
 // C23: coordination windows
@@ -592,3 +596,20 @@ package tbtc
 //@ axiom separated-concat-injective: forall a, b, c, a2, b2, c2 string :: (@nosep(a) && @nosep(b) && @nosep(c) && @nosep(a2) && @nosep(b2) && @nosep(c2) && a + ":" + b + ":" + c == a2 + ":" + b2 + ":" + c2) ==> (a == a2 && b == b2 && c == c2)
 //@ lemma dkg-result-key-injective: forall s, s2 int, h, h2 [32]byte, n, n2 int :: (@nosep(big2str(s)) && big2str(s) + ":" + hexenc(h[0:32]) + ":" + itoa(n) == big2str(s2) + ":" + hexenc(h2[0:32]) + ":" + itoa(n2)) ==> (s == s2 && h == h2 && n == n2)
 //@   property C37
+
+// --- C47: "stop once someone succeeded" wiring: every delivered
+// inactivity-claimed / result-approved event cancels the member's context ---
+//@ ghost ctxCancelled bool
+//@ assume func inactivityClaimExecutor.claimInactivity#lit2:cancelSignerCtx
+//@   modifies ghost.ctxCancelled
+//@   ensures ghost.ctxCancelled
+//@ func inactivityClaimExecutor.claimInactivity
+//@   property C47
+//@   opt noframe 1
+//@   lit 2
+//@     binds ghost.ctxCancelled = false
+//@     opt noframe 1
+//@     ensures [a-claim-for-this-wallet-at-or-after-the-current-nonce-cancels-the-submitting-member] (event != nil && walletRegistryData != nil && event.Nonce != nil && nonce != nil && event.WalletID == walletRegistryData.EcdsaWalletID && bigval(event.Nonce) >= bigval(nonce)) ==> ghost.ctxCancelled
+//@ assume func dkgExecutor.executeDkgValidation#lit2:cancelCtx
+//@   modifies ghost.ctxCancelled
+//@   ensures ghost.ctxCancelled
